@@ -182,6 +182,13 @@ Fixpoint sem {I A} (e : expr I A) (env : list (list I)) : list A :=
   | EBuyHold buy hold e => s_buy_and_hold buy hold (sem e env)
   end.
 
+(* The warm-up a strategy declares: the amount of the Shift it applies last to its actions (0 when its
+   result is not a Shift). *)
+Definition eshift_of {I A} (e : expr I A) : Z := match e with EShift k _ _ => k | _ => 0%Z end.
+Definition eshift_body {I A} (e : expr I A) : expr I A :=
+  match e in expr _ A return expr I A with EShift _ _ e' => e' | e0 => e0 end.
+Definition warm_of {I A} (F : expr I I -> expr I A) : Z := eshift_of (F (EIn 0)).
+
 (* length of a seeded recurrence: nothing without a seed, else the seed plus one value per further input *)
 Definition seeded_len (a b : nat) : nat := match a with O => O | S _ => S b end.
 
